@@ -2445,6 +2445,10 @@ export abstract class BaseRefRuntype extends BaseRuntype {
   hash(ctx: HashContext): number {
     const name = this.refName;
     const to = this.getNamedRuntypes()[this.refName];
+    if (to instanceof BaseRefRuntype) {
+      // an alias of another named type is transparent (as in hash256): a back reference names the type, not the alias
+      return to.hash(ctx);
+    }
     if (ctx.seen[name]) {
       return generateHashFromString(name);
     }
